@@ -311,6 +311,20 @@ let dispatch (fn : string) (args : sx list) : sx =
      | "split_modpath", [p] -> of_opt (of_pair of_path of_path) (split_modpath fs (to_path p))
      | "normalize_modpath", [hi; hm; p] -> of_path (normalize_modpath fs (to_bool hi) (to_bool hm) (to_path p))
      | _ -> raise (Bad "fs op"))
+  (* Proc *)
+  | "ppc_enter", [path; d; index] ->
+    let (p', i) = ppc_enter (to_lines path) (to_str d) (to_z index) in L [of_lines p'; of_nat i]
+  | "ppc_exit", [path; d; i] ->
+    (match ppc_exit (to_lines path) (to_str d) (to_nat i) with
+     | PPC_ok p -> L [A "ok"; of_lines p] | PPC_runtime_error -> A "runtimeerror" | PPC_index_error -> A "indexerror")
+  | "run_proc", [st; bodies] ->
+    let to_op = function
+      | L [A "write"; t] -> Write (to_str t) | L [A "setstdout"; v] -> SetStdout (to_nat v)
+      | L [A "setfilters"; v] -> SetFilters (to_nat v) | L [A "setshowwarning"; v] -> SetShowwarning (to_nat v)
+      | _ -> raise (Bad "op") in
+    let s0 = (match st with L [a; b; c; d] -> { p_stdout = to_nat a; p_stderr = to_nat b; p_filters = to_nat c; p_showwarning = to_nat d; p_cap_text = [] } | _ -> raise (Bad "proc")) in
+    let (s1, logged) = run_proc s0 (to_list (to_list to_op) bodies) in
+    L [of_nat s1.p_stdout; of_nat s1.p_stderr; of_nat s1.p_filters; of_nat s1.p_showwarning; of_lines logged]
   | _ -> raise (Bad ("unknown function " ^ fn))
 
 
